@@ -113,6 +113,7 @@ def verdict (d : DState) (l : Last) : String :=
         let killed : Bool := match l.out with | .killedAfter .. => true | _ => false
         let kv : Nat := match checkKilled l.pre b with | some k => k | none => 0
         if done then "FAIL not-stopped-by-cancel"
+        else if real < 0 then s!"FAIL negative-sleep {real}"
         else if budgetExceeded b cfg.name then "FAIL slept-over-budget"
         else if m ≥ 0 ∧ real > m then "FAIL per-call-max"
         else if real > capBound d cfg.name then "FAIL over-cap"
